@@ -49,7 +49,8 @@ def run(ctx):
         if seen.get(k, 0) < (2 if quick else 6):
             seen[k] = seen.get(k, 0) + 1
             keep.append(s)
-    c = Constants()
+    from harness import physics
+    c = physics.general_constants()
     events, meta = [], []
     for sp in keep:
         a, h = -3.0, 0.5
@@ -101,7 +102,7 @@ def run(ctx):
                     edge = bool((foot == lo or foot == hi or (mode == "periodic" and (foot - lo) % width == 0)) and not exactnode[i])
                     e = {"k": "vpar", "edge": edge, "foot": int(footN), "vmin": int(lo * UNIT), "vmax": int(hi * UNIT), "mode": mode, "wrap": int(w * UNIT), "ok": ok,
                          "m_interp": bool(inside and abs(got - float(sp.spline(coef, foot))) <= tol),
-                         "m_feq": bool(abs(got - init.f_eq(rr, vfoot, c.CN0, c.kN0, c.deltaRN0, c.rp, c.CTi, c.kTi, c.deltaRTi)) <= 1e-12),
+                         "m_feq": bool(abs(got - physics.f_eq(rr, vfoot, c)) <= 1e-12),
                          "m_zero": bool(got == 0.0),
                          "m_image": bool(abs(got - float(sp.spline(coef, w))) <= tol), "err": err}
                     events.append(e)
